@@ -365,6 +365,9 @@ pub struct Ctx {
     journal: Option<fs::File>,
     cur: (String, u64),
     pub max_violations: usize,
+    /// Under Miri only: `want` accepts every `slow_stride`-th of this shard's cases (lets a
+    /// module thin out an enumerated stream for the interpreter without changing it elsewhere).
+    pub slow_stride: u64,
 }
 
 pub struct CtxArgs {
@@ -418,6 +421,7 @@ impl Ctx {
             journal,
             cur: (String::new(), 0),
             max_violations: 40,
+            slow_stride: 1,
         }
     }
 
@@ -459,7 +463,11 @@ impl Ctx {
             Some((s, i)) => s == stream && *i == idx,
             // streams named "iso.*" hold cases that may kill the process (stack overflow,
             // abort); the orchestrator runs each of them in a process of its own
-            None => !stream.starts_with("iso.") && idx % self.nshards == self.shard,
+            None => {
+                !stream.starts_with("iso.")
+                    && idx % self.nshards == self.shard
+                    && (self.slow_stride <= 1 || self.profile != Profile::Miri || (idx / self.nshards) % self.slow_stride == 0)
+            }
         };
         if w {
             if self.cur.0 != stream {
